@@ -60,7 +60,7 @@ def direction_a(ctx, cell, rng):
     tok = p.token
     if isinstance(tok, str):
         det = p.payload if tok.split(".")[1] == "" else None
-        r = rjws.verify_compact(tok, resolver, detached_payload=det)
+        r = rjws.verify_compact(tok, resolver, detached_payload=det, attached_urlsafe_only=True)
     else:
         r = rjws.verify_json(tok, resolver)
     ctx.count("a_checked")
@@ -339,8 +339,23 @@ def unusual_rsa_keys(ctx, rng):
     for kind in UNUSUAL_RSA:
         key = gen.new_rsa_unusual(kind.split(":")[1])
         rk, rpub = RefKey.from_jwk(key), RefKey.from_jwk(gen.public_jwk(key))
-        for a in ("RS256", "PS256", "RS512", "PS384"):
+        bits = int(kind.split(":")[1].split("e")[0])
+        for a in ("RS256", "PS256", "RS512", "PS384", "PS512"):
             payload = b"unusual rsa " + kind.encode()
+            hl = int(a[2:]) // 8
+            too_short = a.startswith("PS") and (bits - 1 + 7) // 8 < 2 * hl + 2     # EMSA-PSS: emLen >= hLen + sLen + 2 with sLen = hLen
+            if too_short:
+                # the key cannot carry a salt of hash length: refusing is right; a token, if one is made, is still the RFC's (the reference decides)
+                ctx.ev()
+                o = call(j.jws.serialize_compact, {"alg": a}, payload, j.key(key), algorithms=[a])
+                ctx.count("a_checked")
+                ctx.count("pss_keys_too_short_for_the_salt")
+                if o.ok:
+                    r = rjws.verify_compact(o.value, rpub)
+                    if r.verdict != "ACCEPT":
+                        ctx.violation(f"ref-rejects:{r.klass}:{a}:key-too-short-for-a-salt-of-hash-length", f"{a} token signed by joserfc under a {bits}-bit RSA key (too short for a "
+                                      f"{hl}-octet salt): reference says {r.reason}", {"dir": "A-rare", "alg": a, "token": o.value, "keys": [gen.public_jwk(key)]})
+                continue
             ctx.ev()
             t = rjws.compact({"alg": a}, payload, rk)
             o = call(j.jws.deserialize_compact, t, j.key(gen.public_jwk(key)), algorithms=[a])
@@ -449,6 +464,12 @@ def run_shard(ctx):
         if ctx.out_of_time():
             ctx.note("budget reached in direction A forced cells")
             break
+    if ctx.shard == 11:
+        # unencoded payloads at the edges of the URL-safe test: what is attached to a compact token is URL-safe, everything else is detached
+        for pl in P.PAYLOAD_NAMES[12:] + ["urlsafe", "dots", "utf8", "ascii"]:
+            for alg in ("HS256", "ES256"):
+                direction_a(ctx, P.Cell(rng, alg=alg, form="compact", b64="false", payload=pl, key_given="key", placement="protected"), rng)
+                ctx.count("edge_payloads_unencoded")
     n = 60 if ctx.tier == "quick" else 3000
     for _ in range(n):
         if ctx.out_of_time():
